@@ -64,7 +64,7 @@ class TokenParser(Parser):
         )
         TOK.add(r"(?<=})\s*(?P<defs>(?:[a-zA-Z0-9_]+\s*,\s*)+[a-zA-Z0-9_]+)\s*(?=;)", "DEFS")
         TOK.add(
-            r"(?P<name>(?:\*\s*)*[a-zA-Z0-9_]+)(?:\s*:\s*(?P<bits>\d+))?(?:\s*\[(?P<count>[^;\n]*)\])?\s*(?=;)", "NAME"
+            r"(?P<name>(?:\*\s*)*[a-zA-Z0-9_]+)(?:\s*:\s*(?P<bits>\d+))?(?:\s*\[(?P<count>[^;]*)\])?\s*(?=;)", "NAME"
         )
         TOK.add(r"[a-zA-Z_][a-zA-Z0-9_]*", "IDENTIFIER")
         TOK.add(r"[{}]", "BLOCK")
@@ -299,7 +299,8 @@ class TokenParser(Parser):
 
         if count_expression is not None:
             # Poor mans multi-dimensional array by abusing the eager regex match of count
-            counts = count_expression.split("][") if "][" in count_expression else [count_expression]
+            # (white space may separate the dimensions: a[2] [3])
+            counts = re.split(r"\]\s*\[", count_expression)
 
             for count in reversed(counts):
                 if count == "":
